@@ -49,6 +49,9 @@ class MoveImportsToTypeCheckingBlockVisitor(ContextAwareTransformer):
     @staticmethod
     def _add_type_checking_import(source_module: Module) -> Module:
         context = CodemodContext()
+        # libcst adds the __future__ import only when it applied an annotation;
+        # the TYPE_CHECKING block relies on it either way.
+        AddImportsVisitor.add_needed_import(context, "__future__", "annotations")
         AddImportsVisitor.add_needed_import(context, "typing", "TYPE_CHECKING")
         transformer = AddImportsVisitor(context)
         transformed_source_module = transformer.transform_module(source_module)
